@@ -4,6 +4,7 @@ import (
 	"context"
 	"encoding/json"
 	"fmt"
+	"golang.org/x/text/unicode/norm"
 	"math"
 	"sort"
 	"strconv"
@@ -144,7 +145,9 @@ func unmarshalValue(span errors.Span, self interface{}) (*Value, *Interrupt) {
 			if err != nil {
 				return nil, err
 			}
-			fields[key] = value
+			// text is kept in one normal form everywhere (see NewValueString): the names of members as well,
+			// `o.get(o.keys()[0])` has to find the member
+			fields[norm.NFC.String(key)] = value
 		}
 		return NewValueObject(fields), nil
 	case []interface{}:
